@@ -112,7 +112,7 @@ def _bonds_from_distance(graph, nodes=None, non_edges=None, fudge=1.2):
 
     positions = np.array([
         graph.nodes[node]['position']
-        for node in idx_to_nodenum
+        for node in idx_to_nodenum.values()
     ], dtype=float)
 
     # Pylint ignore because positions is a numpy array.
